@@ -84,8 +84,8 @@ func HarnessC17PageNumber() {
 	family := vx.Choose("family", vx.Param("families", 7))
 	deco := vx.Choose("linkdeco", 5) // decoration of the link labels: 7, [7], (7), [ 7 ], ( 7 )
 	desc := vx.Choose("descending", 2) == 1
-	sep := []string{" ", " | ", "", "\n"}[vx.Choose("sep", 4)]
-	wrap := vx.Choose("wrap", 3)
+	sep := []string{" ", " | ", "", "\n"}[vx.Choose("sep", vx.Param("seps", 4))]
+	wrap := vx.Choose("wrap", vx.Param("wraps", 3))
 	cur := vx.Choose("cur", 4)
 	var sb strings.Builder
 	for pos := 1; pos <= N; pos++ {
